@@ -662,6 +662,14 @@ def derived_directed(ctx, k):
     mc2 = derived(ctx, rng, mc, op=op)
     if mc2 is mc:
         raise Skip("derived-operation-not-applied")
+    if mc2.desc.get("unsorted_first_order"):
+        # oriented(): cells in the caller's local order; the statement keeps these meshes for elements with at most one
+        # DOF per facet and edge (see gen_case), so the operation is paired with those
+        e_ = rec.make()
+        if max(getattr(e_, "facet_dofs", 0), getattr(e_, "edge_dofs", 0)) > 1:
+            single = ("ElementTriP2", "ElementTriRT1", "ElementTriN1", "ElementTriCR")
+            rec = EL.by_name(single[(k // 3) % len(single)])
+            ctx.drop("unsorted-triangles:element-with-several-dofs-per-facet-replaced")
     check_mesh_elem(ctx, mc2, rec)
     ctx.reached("derived-directed:" + op)
 
